@@ -51,6 +51,11 @@ TApi == /\ Ev("api") /\ Adv /\ UNCHANGED vars
                rcv == ResultsOf("recv") IN
            /\ (Cur.op = "css" => (Cur.ok <=> (Len(snd) = 1 /\ snd[1][2] \in {"ok", "eof"})))
            /\ (Cur.op = "car" => (Cur.ok <=> (Len(rcv) = 2 /\ rcv[1][2] = "msg" /\ rcv[2][2] = "eof")))
+           \* CallUnary: the request went out (or met a finished server) and exactly one message came back
+           /\ (Cur.op = "cu" => (Cur.ok <=> (/\ Len(snd) = 1 /\ snd[1][2] \in {"ok", "eof"}
+                                              /\ Len(rcv) = 2 /\ rcv[1][2] = "msg" /\ rcv[2][2] = "eof")))
+           /\ (Cur.op = "cu" /\ Len(snd) = 1 /\ snd[1][2] = "ctx" => Cur.code = CtxCode)
+           /\ (Cur.op = "cu" /\ Len(rcv) >= 1 /\ rcv[Len(rcv)][2] = "ctx" => Cur.code = CtxCode)
            \* C15: a wrapper that fails because of the context reports the context's code
            /\ (Cur.op = "car" /\ Len(rcv) = 1 /\ rcv[1][2] = "ctx" => Cur.code = CtxCode)
            /\ (Cur.op = "css" /\ Len(snd) = 1 /\ snd[1][2] = "ctx" => Cur.code = CtxCode)
